@@ -11,7 +11,7 @@ from .c08 import RES, handler_cfg
 LEVEL = "exploration"
 GM = ["DSC", "IOU", "ASSD", "RVD"]
 RULE = (
-    "Label-map pairs in 1-3-D incl. one or both sides empty x every non-empty subset of global metrics {DSC,IOU,ASSD,RVD} "
+    "Label-map pairs in 1-3-D (C / Fortran / negative-stride / transposed layout) incl. one or both sides empty x every non-empty subset of global metrics {DSC,IOU,ASSD,RVD} "
     "(+clDSC in 2-/3-D) x the default edge-case handler or random ones (4 scenario values x 5 results per metric) x input types x matchers "
     "(threshold, many-to-one, merge) x label values (small, around 2^8, multiples of 256 and 65536 in wide dtypes); plus a re-partitioned variant of the same two foregrounds (voxels relabelled "
     "arbitrarily, other matcher/threshold). Oracle: global_bin_<m> = model metric on the binarised coordinate sets "
